@@ -83,7 +83,7 @@ func checkC03(p *Prog, r *Report) {
 	// ---- P2
 	flush := p.FuncOf(p.Method("KCP", "flush"))
 	c := p.CFG(flush)
-	recv := p.recvVar(flush)
+	recv := p.selfVar(flush)
 	probe := tFld(tVar(recv), fProbe)
 	type emit struct {
 		flag int64
@@ -214,7 +214,7 @@ func checkC03(p *Prog, r *Report) {
 	{
 		recvF := p.FuncOf(p.Method("KCP", "Recv"))
 		rc := p.CFG(recvF)
-		rr := p.recvVar(recvF)
+		rr := p.selfVar(recvF)
 		kcp := tVar(rr)
 		lenQ := p.M(p.F(kcp, "KCP", "rcv_queue"), "RingBuffer", "Len")
 		wnd := p.F(kcp, "KCP", "rcv_wnd")
@@ -394,7 +394,7 @@ func checkC03(p *Prog, r *Report) {
 
 func checkProbeTimer(p *Prog, r *Report, flush *FuncInfo) {
 	c := p.CFG(flush)
-	recv := p.recvVar(flush)
+	recv := p.selfVar(flush)
 	kcp := tVar(recv)
 	fWait := p.Field("KCP", "probe_wait")
 	fTs := p.Field("KCP", "ts_probe")
@@ -571,7 +571,7 @@ func checkCwndNeverStuck(p *Prog, r *Report, rule string) {
 		// nocwnd == 0 branch to the return
 		flush := p.FuncOf(p.Method("KCP", "flush"))
 		c := p.CFG(flush)
-		kcp := tVar(p.recvVar(flush))
+		kcp := tVar(p.selfVar(flush))
 		cw := tFld(kcp, fCwnd)
 		isFloor := func(nd ast.Node, pt Point) bool {
 			// the store cwnd = c (c >= 1) under cwnd < 1
